@@ -454,6 +454,8 @@ Step(s, ev, ch) ==
       [] ev.k = "sendjunk" -> SendJunk(s)
       [] ev.k = "reboot"  -> SetReboot(s, ev.n)
       [] ev.k = "cycle"   -> Quiet(s, Done)     \* the gateway context is left and entered again: nothing changes
+      [] ev.k = "sibling" -> Quiet(s, Done)     \* another Gateway object in the same process learns another version:
+                                                \* nothing changes here (state is per gateway, not per process)
       [] ev.k = "snapshot" -> Quiet(s, Done)    \* the registry is saved to a file
       [] ev.k = "reload"  -> Quiet(s, Done)     \* an earlier snapshot is loaded again: no id in use disappears
                                                 \* (only used under the C11 focus: node contents may revert)
